@@ -10,9 +10,10 @@ import (
 
 	pt "github.com/weedbox/pokertable"
 	"verif.local/vrt"
+	"verif.local/vrt/vsync"
 )
 
-func c07Inject(prefix []int, op string, n int) *vrt.Exec {
+func c07Inject(prefix []int, op string, n int, phase string) *vrt.Exec {
 	return runTable(prefix, vrt.Config{FineAll: true, ClockAsThread: true}, func(env *vrt.Env) (string, string, string) {
 		td, err := newTD(env, defaultCfg(4))
 		if err != nil {
@@ -29,7 +30,24 @@ func c07Inject(prefix []int, op string, n int) *vrt.Exec {
 		}
 		var retAt int64 = -1
 		retSeq := -1
+		if phase == "open" {
+			// let the continue handler set the next hand up first; the window then starts with the gate's
+			// timeout firing, so the injected call competes with tableGameOpen itself from its first statement
+			for i := 0; i < 4 && env.PendingTimers() > 0; i++ {
+				if og := pt.VerifOpenGameManager(td.te); og != nil && og.GetState().GameCount == 2 {
+					break
+				}
+				env.AdvanceTimer()
+				env.Settle()
+			}
+			if og := pt.VerifOpenGameManager(td.te); og == nil || og.GetState().GameCount != 2 {
+				return "", "harness-base", "hand 2 was not set up"
+			}
+		}
 		env.WindowBegin()
+		if phase == "open" {
+			env.AdvanceTimer() // the gate's timeout: tableGameOpen becomes runnable
+		}
 		th := env.Go("injector:"+op, true, func() {
 			switch op {
 			case "close":
@@ -65,6 +83,87 @@ func c07Inject(prefix []int, op string, n int) *vrt.Exec {
 	})
 }
 
+// c07LockHeld: the closed / released check of tableGameOpen must be made under the engine lock. An add-on is
+// parked inside its own notification callback (which the engine invokes while holding te.lock); with the
+// lock held the gate's timeout fires (tableGameOpen becomes runnable) and CloseTable / ReleaseTable is
+// called and returns; only then is the add-on let go. The opening needs the lock from its check to the swap,
+// and the lock was held during the whole close call, so the check necessarily comes after the close
+// returned: no hand may open, whatever the schedule of the opener against the closer.
+func c07LockHeld(prefix []int, op string) *vrt.Exec {
+	return runTable(prefix, vrt.Config{FineAll: true}, func(env *vrt.Env) (string, string, string) {
+		td, err := newTD(env, defaultCfg(4))
+		if err != nil {
+			return "", "harness-create", err.Error()
+		}
+		td.seatIn([]string{"a", "b"}, []int{0, 1}, []int64{9, 9})
+		td.start()
+		pol := &HandPolicy{Line: lineFoldOut, Finish: "none"}
+		if !td.runUntil(pol, 300, func() bool {
+			return td.table().State.GameCount == 1 && td.status() == pt.TableStateStatus_TableGameStandby
+		}) {
+			return "", "harness-base", "hand 1 did not settle"
+		}
+		for i := 0; i < 4 && env.PendingTimers() > 0; i++ {
+			if og := pt.VerifOpenGameManager(td.te); og != nil && og.GetState().GameCount == 2 {
+				break
+			}
+			env.AdvanceTimer()
+			env.Settle()
+		}
+		if og := pt.VerifOpenGameManager(td.te); og == nil || og.GetState().GameCount != 2 {
+			return "", "harness-base", "hand 2 was not set up"
+		}
+		before := td.player("a").Bankroll
+		var park vsync.Mutex
+		park.Lock()
+		parked := false
+		td.onSnap = func(sn *Snap) {
+			if parked {
+				return
+			}
+			if p, _ := playerByID(sn.T, "a"); p != nil && p.Bankroll == before+3 {
+				parked = true
+				park.Lock() // blocks (inside the engine's callback, te.lock held) until the driver lets go
+				park.Unlock()
+			}
+		}
+		holder := env.Go("holder:addon", false, func() { td.addon("a", 3) })
+		env.Settle()
+		if !parked {
+			return "", "harness-base", "the add-on did not reach its notification"
+		}
+		closed := false
+		env.WindowBegin()
+		env.AdvanceTimer() // the gate's timeout: tableGameOpen becomes runnable (and will need te.lock)
+		closer := env.Go("closer:"+op, true, func() {
+			if op == "close" {
+				td.te.CloseTable()
+			} else {
+				td.te.ReleaseTable()
+			}
+			closed = true
+		})
+		env.Settle()
+		if !closed {
+			env.WindowEnd()
+			return "", "harness-base", op + " did not return while the lock was held"
+		}
+		park.Unlock()
+		env.Join(holder, closer)
+		env.WindowEnd()
+		env.Settle()
+		for i := 0; i < 6 && env.PendingTimers() > 0 && td.table().State.GameCount < 2; i++ {
+			env.AdvanceTimer()
+			env.Settle()
+		}
+		out := fmt.Sprintf("%s returned while an add-on held the engine lock; afterwards game count %d, status %s", op, td.table().State.GameCount, td.status())
+		if td.table().State.GameCount >= 2 {
+			return out, "opened-after-stop@" + op + "/open-trigger-waiting-for-the-engine-lock", fmt.Sprintf("between hands (standby, hand 2 set up) an add-on held the engine lock inside its notification callback; the open-game timeout fired and %s returned while the lock was still held; when the add-on finished, hand 2 opened all the same (game count %d, status %s)", op, td.table().State.GameCount, td.status())
+		}
+		return out, "", ""
+	})
+}
+
 func c07SchedSuites(tier string) []*Suite {
 	bound := 1
 	if tier == "thorough" {
@@ -72,12 +171,17 @@ func c07SchedSuites(tier string) []*Suite {
 	}
 	var ss []*Suite
 	for _, op := range []string{"close", "release"} {
+		op := op
+		ss = append(ss, &Suite{Name: "c07/inject-lock-held/" + op, Bound: bound, Weight: 20, Run: func(prefix []int) *vrt.Exec { return c07LockHeld(prefix, op) }})
+	}
+	for _, op := range []string{"close", "release"} {
 		for _, n := range []int{2, 3} {
 			op, n := op, n
 			if tier == "quick" && n == 3 {
 				continue
 			}
-			ss = append(ss, &Suite{Name: fmt.Sprintf("c07/inject/%s/n%d", op, n), Bound: bound, Weight: 50, Run: func(prefix []int) *vrt.Exec { return c07Inject(prefix, op, n) }})
+			ss = append(ss, &Suite{Name: fmt.Sprintf("c07/inject/%s/n%d", op, n), Bound: bound, Weight: 50, Run: func(prefix []int) *vrt.Exec { return c07Inject(prefix, op, n, "continue") }})
+			ss = append(ss, &Suite{Name: fmt.Sprintf("c07/inject-at-open/%s/n%d", op, n), Bound: bound, Weight: 50, Run: func(prefix []int) *vrt.Exec { return c07Inject(prefix, op, n, "open") }})
 		}
 	}
 	return ss
